@@ -9,6 +9,7 @@ The model answers and the acceptance relation are the Lean definitions of `Sb.Mo
 -/
 import Sb.Corr.Codec
 import Sb.Corr.Container
+import Sb.Corr.YawOps
 
 open Sb.Corr
 
@@ -27,6 +28,8 @@ def dispatch (op : String) (args impl : List String) : Verdict :=
   | "varu_grid" => opVaruGrid args impl
   | "crcupd" => opCrcUpd args impl
   | "fcorr" => opFcorr args impl
+  | "traj" => opTraj args impl
+  | "yawq" => opYawq args impl
   | "facc" => opFacc args impl
   | "walk" => opWalk args impl
   | "find" => opFind args impl
